@@ -499,14 +499,14 @@ func genConcProg(t *rapid.T) concProg {
 	if p.VarKind != kindEvent {
 		p.Init = rapid.IntRange(0, 2).Draw(t, "init")
 	}
-	ops := []string{"set", "set", "set", "compute", "compute", "default"}
+	ops := []string{"set", "set", "init", "compute", "compute", "default"}
 	if p.VarKind == kindEvent {
-		ops = []string{"trigger", "trigger", "set", "compute", "default"}
+		ops = []string{"trigger", "trigger", "set", "init", "compute", "default"}
 	}
 	opGen := rapid.Custom(func(t *rapid.T) wop {
 		o := wop{Op: rapid.SampledFrom(ops).Draw(t, "op"), Yield: rapid.IntRange(0, 3).Draw(t, "yield")}
 		switch o.Op {
-		case "set", "default":
+		case "set", "init", "default":
 			o.Arg = rapid.IntRange(0, maxVal).Draw(t, "v")
 		case "compute":
 			o.Arg = rapid.IntRange(-1, 2).Draw(t, "k")
